@@ -38,15 +38,35 @@ theorem liftM_ok {α : Type} {m : M α} {gs : GSt} {σ σ' : St} {a : α} (hm : 
   simp only [hm, bind, Except.bind]
   rfl
 
-/-- `σ'` extends `σ`: every object of `σ` is still there, the append/dirty bookkeeping is unchanged. -/
+/-- The append bookkeeping only mentions references of the heap. -/
+def WfApp (σ : St) : Prop := ∀ r, σ.heap.size ≤ r → σ.appendedFrom.lookup r = none
+
+/-- `σ'` extends `σ`: every object of `σ` is still there, the append bookkeeping of the references of `σ`
+and the dirty list are unchanged (new references may have been appended to), well-formedness is kept. -/
 structure Ext (σ σ' : St) : Prop where
   keep : ∀ (r : Nat) (o : Obj), σ.heap[r]? = some o → σ'.heap[r]? = some o
-  app : σ'.appendedFrom = σ.appendedFrom
+  app : ∀ r, r < σ.heap.size → σ'.appendedFrom.lookup r = σ.appendedFrom.lookup r
   dirty : σ'.dirty = σ.dirty
+  wf : WfApp σ → WfApp σ'
 
-theorem Ext.refl (σ : St) : Ext σ σ := ⟨fun _ _ h => h, rfl, rfl⟩
+theorem lt_size_of_get {σ : St} {r : Nat} {o : Obj} (h : σ.heap[r]? = some o) : r < σ.heap.size := by
+  rcases Nat.lt_or_ge r σ.heap.size with hc | hc
+  · exact hc
+  · have : σ.heap[r]? = none := by simp; omega
+    rw [this] at h; cases h
+
+theorem Ext.size_le {σ σ' : St} (h : Ext σ σ') : σ.heap.size ≤ σ'.heap.size := by
+  rcases Nat.eq_zero_or_pos σ.heap.size with h0 | hp
+  · omega
+  · have hlt : σ.heap.size - 1 < σ.heap.size := by omega
+    have := lt_size_of_get (h.keep (σ.heap.size - 1) _ (Array.getElem?_eq_getElem hlt))
+    omega
+
+theorem Ext.refl (σ : St) : Ext σ σ := ⟨fun _ _ h => h, fun _ _ => rfl, rfl, fun h => h⟩
 theorem Ext.trans {a b c : St} (h1 : Ext a b) (h2 : Ext b c) : Ext a c :=
-  ⟨fun r o h => h2.keep r o (h1.keep r o h), h2.app.trans h1.app, h2.dirty.trans h1.dirty⟩
+  ⟨fun r o h => h2.keep r o (h1.keep r o h),
+   fun r hr => (h2.app r (Nat.lt_of_lt_of_le hr h1.size_le)).trans (h1.app r hr),
+   h2.dirty.trans h1.dirty, fun h => h2.wf (h1.wf h)⟩
 
 def pushSt (σ : St) (o : Obj) : St := { σ with heap := σ.heap.push o }
 
@@ -58,12 +78,8 @@ theorem pushSt_new (σ : St) (o : Obj) : (pushSt σ o).heap[σ.heap.size]? = som
 theorem pushSt_size (σ : St) (o : Obj) : (pushSt σ o).heap.size = σ.heap.size + 1 := by simp [pushSt]
 
 theorem ext_push (σ : St) (o : Obj) : Ext σ (pushSt σ o) := by
-  refine ⟨fun r o' h => ?_, rfl, rfl⟩
-  have hr : r < σ.heap.size := by
-    rcases Nat.lt_or_ge r σ.heap.size with hc | hc
-    · exact hc
-    · have : σ.heap[r]? = none := by simp; omega
-      rw [this] at h; cases h
+  refine ⟨fun r o' h => ?_, fun _ _ => rfl, rfl, fun hw r hr => hw r (by rw [pushSt_size] at hr; omega)⟩
+  have hr : r < σ.heap.size := lt_size_of_get h
   simp only [pushSt]
   rw [Array.getElem?_push_lt hr]
   simpa [Array.getElem?_eq_getElem hr] using h
@@ -107,7 +123,7 @@ structure ArrAt (σ : St) (r st : Nat) (es : List Value) : Prop where
 theorem ArrAt.ext {σ σ' : St} {r st : Nat} {es : List Value} (h : ArrAt σ r st es) (he : Ext σ σ') :
     ArrAt σ' r st es := by
   obtain ⟨⟨off, len, h1, vs, hh, h2, h3⟩, hc⟩ := h
-  exact ⟨⟨off, len, he.keep _ _ h1, vs, hh, he.keep _ _ h2, h3⟩, by rw [he.app]; exact hc⟩
+  exact ⟨⟨off, len, he.keep _ _ h1, vs, hh, he.keep _ _ h2, h3⟩, by rw [he.app r (lt_size_of_get h1)]; exact hc⟩
 
 theorem m_bind_ok {α β : Type} {x : M α} {f : α → M β} {σ σ' : St} {a : α}
     (h : x σ = .ok (a, σ')) : (x >>= f) σ = f a σ' := by
